@@ -150,6 +150,18 @@ public:
    */
   string<A> to_string() const;
 
+#ifdef DATASKETCHES_VERIF
+  // Verification hook (compiled only with -DDATASKETCHES_VERIF): read-only copy of the marks of the gadget's
+  // H items, in heap order. No public getter shows them, and the serialized image stores them bit-packed.
+  std::vector<bool> verif_gadget_marks() const {
+    std::vector<bool> m;
+    if (gadget_.marks_ != nullptr) {
+      for (uint32_t i = 0; i < gadget_.h_; ++i) m.push_back(gadget_.marks_[i]);
+    }
+    return m;
+  }
+#endif
+
 private:
   using AllocSketch = typename std::allocator_traits<A>::template rebind_alloc<var_opt_sketch<T, A>>;
   using AllocDouble = typename std::allocator_traits<A>::template rebind_alloc<double>;
